@@ -4,6 +4,7 @@ documents parsed by the real TeX) vs Model/Refs.v; the judge evaluates Model/Ref
 implementation's own output."""
 import copy
 import itertools
+import re
 
 ID = 'C09'
 PINS = [('plasTeX/Context.py', 'Context.label'), ('plasTeX/Context.py', 'Context.ref'),
@@ -66,11 +67,20 @@ def wire_event(e):
 # documents
 # block  : ['sec', level, starred, title_inlines, after_label|None] | ['par', inlines] | ['eq', inlines]
 #          | ['eqn', [[inlines, nonumber], ...]] | ['enum', [[blocks], ...]] | ['float', kind, pre_inlines, caption_inlines|None, post_inlines]
-#          | ['thm', title_inlines|None, blocks]
+#          | ['thm', title_inlines|None, blocks] | ['iterm', inlines]  (first block of an item: \item[...])
+#          | ['bib', [[key, inlines], ...]]  (thebibliography; every \bibitem is an object, its key is NOT a label)
+#          a 'sec' block may carry a sixth element: inlines (counterless commands) written between the command and its label
 # inline : ['t', text] | ['label', l] | ['ref', l, uid] | ['pageref', l, uid] | ['grp', inlines]
+#          | ['cmd', source]  a command without counter (\vspace*{1cm}, \hspace*{1em}, \\*, \vspace{1cm}, \cite{k}): no event --
+#                             it never changes the current label
 
 SEC_NAMES = {1: 'section', 2: 'subsection', 3: 'subsubsection', 4: 'paragraph', 5: 'subparagraph'}
 DEFAULT_SECNUMDEPTH = 2      # plasTeX's document/sec-num-depth default
+CMDS = ['\\hspace*{1em}', '\\hspace{2em}', '\\vspace*{1cm}', '\\vspace{1cm}']     # starred and unstarred commands without a counter
+LINEBREAKS = ['\\\\*', '\\\\']
+DANGLING = ['nope', 'missing:1', 'zz']
+# label texts with tokens that are not plain characters: active ~, control symbols, groups
+SPECIAL_STYLES = ['fig~%d', 'x~y%d', 's\\_%d', 't\\&%d', 'a{b}%d', 'eq{}%d', 'n\\#%d', 'p~q\\_r{s}%d']
 WORDS = ['alpha', 'beta', 'gamma', 'delta', 'text', 'more', 'words', 'here', 'see', 'and']
 MATH = ['x', 'y+z', 'a^2', 'b_1', '\\alpha', 'n']
 
@@ -87,6 +97,8 @@ def render_inlines(inl, math=False):
             out.append('\\%s{%s}' % (k, x[1]))
         elif k == 'grp':
             out.append('{' + render_inlines(x[1], math) + '}')
+        elif k == 'cmd':
+            out.append(x[1])
         else:
             raise ValueError(x)
     return ' '.join(out)
@@ -97,8 +109,9 @@ def render_blocks(blocks):
     for b in blocks:
         k = b[0]
         if k == 'sec':
-            out.append('\\%s%s{%s}%s\n' % (SEC_NAMES[b[1]], '*' if b[2] else '', render_inlines(b[3]),
-                                           '\\label{%s}' % b[4] if b[4] is not None else ''))
+            out.append('\\%s%s{%s}%s%s\n' % (SEC_NAMES[b[1]], '*' if b[2] else '', render_inlines(b[3]),
+                                             render_inlines(b[5]) if len(b) > 5 else '',
+                                             '\\label{%s}' % b[4] if b[4] is not None else ''))
         elif k == 'par':
             out.append(render_inlines(b[1]) + '\n\n')
         elif k == 'eq':
@@ -109,13 +122,18 @@ def render_blocks(blocks):
                 rows.append('a_%d &=& ' % i + render_inlines(inl, True) + (' \\nonumber' if nonum else ''))
             out.append('\\begin{eqnarray}' + ' \\\\\n'.join(rows) + '\\end{eqnarray}\n')
         elif k == 'enum':
-            out.append('\\begin{enumerate}\n' + ''.join('\\item ' + render_blocks(it) for it in b[1]) + '\\end{enumerate}\n')
+            out.append('\\begin{enumerate}\n' + ''.join(
+                ('\\item[%s] ' % render_inlines(it[0][1]) + render_blocks(it[1:])) if it and it[0][0] == 'iterm' else ('\\item ' + render_blocks(it))
+                for it in b[1]) + '\\end{enumerate}\n')
         elif k == 'float':
             env = 'figure' if b[1] == 'fig' else 'table'
             out.append('\\begin{%s}' % env + render_inlines(b[2]) + ('\\caption{%s}' % render_inlines(b[3]) if b[3] is not None else '') +
                        render_inlines(b[4]) + '\\end{%s}\n' % env)
         elif k == 'thm':
             out.append('\\begin{thm}' + ('[%s]' % render_inlines(b[1]) if b[1] is not None else '') + '\n' + render_blocks(b[2]) + '\\end{thm}\n')
+        elif k == 'bib':
+            out.append('\\begin{thebibliography}{9}\n' + ''.join('\\bibitem{%s} %s\n' % (key, render_inlines(inl)) for key, inl in b[1]) +
+                       '\\end{thebibliography}\n')
         else:
             raise ValueError(b)
     return ''.join(out)
@@ -123,6 +141,15 @@ def render_blocks(blocks):
 
 def render_doc(ast):
     return '\\documentclass{article}\\newtheorem{thm}{Theorem}\\begin{document}\n' + render_blocks(ast) + '\\end{document}\n'
+
+
+SPECIAL = re.compile(r'(~|\\[_&#%])')
+
+
+def read_name(l):
+    """the string the argument reader hands to castLabel / castRef for the label text l: plain characters as written; an
+    active character or control symbol (~ \\_ \\& \\# \\%) comes back as its source followed by a blank; groups {..} as written"""
+    return SPECIAL.sub(lambda m: m.group(1) + ' ', l)
 
 
 def doc_events(ast, secnumdepth=None):
@@ -144,9 +171,9 @@ def doc_events(ast, secnumdepth=None):
         for x in inl:
             k = x[0]
             if k == 'label':
-                ev.append(['label', x[1], None])
+                ev.append(['label', read_name(x[1]), None])
             elif k in ('ref', 'pageref'):
-                ev.append(['ref', x[2], 0, x[1]])
+                ev.append(['ref', x[2], 0, read_name(x[1])])
                 uids.append(x[2])
             elif k == 'grp':
                 ev.append(['open'])
@@ -170,8 +197,10 @@ def doc_events(ast, secnumdepth=None):
                 inlines(b[3])
                 if num is not None:
                     ev.append(['num', o, num])
+                if len(b) > 5:
+                    inlines(b[5])
                 if b[4] is not None:
-                    ev.append(['label', b[4], None])
+                    ev.append(['label', read_name(b[4]), None])
             elif k == 'par':
                 inlines(b[1])
             elif k == 'eq':
@@ -203,9 +232,12 @@ def doc_events(ast, secnumdepth=None):
                     o = new_obj()
                     st['enum'][d] += 1
                     ev.append(['cur', o])
+                    if it and it[0][0] == 'iterm':
+                        inlines(it[0][1])       # \item[...]: the optional argument is read after the item became current
+                        it = it[1:]
                     ev.append(['num', o, '%d' % st['enum'][d]])
-                    if d > 1:
-                        wild.append(o)
+                    if d > 1 or any(x and x[0][0] == 'iterm' for x in b[1]):
+                        wild.append(o)          # LaTeX does not step the counter for \item[...]; numbering is C08's subject
                     blocks(it)
                 st['depth'] -= 1
                 ev.append(['close'])
@@ -231,6 +263,15 @@ def doc_events(ast, secnumdepth=None):
                 ev.append(['num', o, '%d' % st['thm']])
                 blocks(b[2])
                 ev.append(['close'])
+            elif k == 'bib':
+                ev.append(['open'])
+                for key, inl in b[1]:
+                    o = new_obj()               # \bibitem has a counter: it is the current object for a \label after it,
+                    ev.append(['cur', o])       # but its key lives in the \cite name space and is no label
+                    ev.append(['num', o, '?'])
+                    wild.append(o)
+                    inlines(inl)
+                ev.append(['close'])
             else:
                 raise ValueError(b)
     blocks(ast)
@@ -252,8 +293,11 @@ def inline_lists(ast):
             k = b[0]
             if k == 'sec':
                 inl(b[3])
-            elif k in ('par', 'eq'):
+            elif k in ('par', 'eq', 'iterm'):
                 inl(b[1])
+            elif k == 'bib':
+                for e in b[1]:
+                    inl(e[1])
             elif k == 'eqn':
                 for row in b[1]:
                     inl(row[0])
@@ -301,7 +345,8 @@ def container_lists(ast):
 
 
 class LabelSource(object):
-    def __init__(self, rng, dup=False):
+    def __init__(self, rng, dup=False, special=False):
+        self.special = special
         self.rng = rng
         self.n = 0
         self.dup = dup
@@ -316,7 +361,8 @@ class LabelSource(object):
             self.used.append(l)
             return l
         self.n += 1
-        style = self.rng.choice(['l%d', 'sec:%d', 'eq-%d', 'L%d', 'x.%d', 'a%d', 'eq:mass energy %d', 'thm main%d', 'a b c%d'])
+        style = self.rng.choice(SPECIAL_STYLES if self.special else
+                                ['l%d', 'sec:%d', 'eq-%d', 'L%d', 'x.%d', 'a%d', 'eq:mass energy %d', 'thm main%d', 'a b c%d'])
         l = style % self.n
         if ' ' in l and self.rng.random() < 0.5:
             self.twin = l.replace(' ', '-')
@@ -333,8 +379,20 @@ def gen_blocks(rng, ls, n, depth, ill, top):
     out = []
     plab = 0.6
 
-    def maybe_label():
-        return [['label', ls.fresh()]] if rng.random() < plab else []
+    def maybe_label(par=False, math=False):
+        """a label (sometimes two on the same object), sometimes with counterless commands between the object and the label"""
+        if rng.random() >= plab:
+            return []
+        pre = []
+        r = rng.random()
+        if r < 0.25:
+            pre = [['cmd', rng.choice(CMDS[:2] if math else CMDS)] for _ in range(rng.choice([1, 1, 2]))]
+        elif r < 0.35 and par:
+            pre = [['cmd', rng.choice(LINEBREAKS)], text(rng)]
+        res = pre + [['label', ls.fresh()]]
+        if rng.random() < 0.1:
+            res += ([['cmd', rng.choice(CMDS[:2])]] if rng.random() < 0.3 else []) + [['label', ls.fresh()]]
+        return res
 
     for _ in range(n):
         kinds = ['par', 'eq', 'eqn', 'enum', 'thm']
@@ -352,24 +410,30 @@ def gen_blocks(rng, ls, n, depth, ill, top):
                 after = ls.fresh()
             elif r < 0.65:
                 title += [['label', ls.fresh()]]
-            out.append(['sec', rng.choice([1, 1, 2, 2, 3, 3, 4, 5]), starred, title, after])
+            sec = ['sec', rng.choice([1, 1, 2, 2, 3, 3, 4, 5]), starred, title, after]
+            if after is not None and rng.random() < 0.3:
+                sec.append([['cmd', rng.choice(CMDS)] for _ in range(rng.choice([1, 1, 2]))])
+            out.append(sec)
             if rng.random() < 0.5:
                 out.append(['par', [text(rng)]])
         elif k == 'par':
             out.append(['par', [text(rng)]])
         elif k == 'eq':
-            out.append(['eq', [text(rng, True)] + maybe_label()])
+            out.append(['eq', [text(rng, True)] + maybe_label(math=True)])
         elif k == 'eqn':
             rows = []
             for i in range(rng.randint(1, 3)):
                 nonum = i > 0 and rng.random() < 0.2
-                rows.append([[text(rng, True)] + ([] if nonum else maybe_label()), nonum])
+                rows.append([[text(rng, True)] + ([] if nonum else maybe_label(math=True)), nonum])
             out.append(['eqn', rows])
         elif k == 'enum':
             items = []
             for i in range(rng.randint(1, 3)):
-                first = ['par', [text(rng)] + maybe_label()]
+                first = ['par', [text(rng)] + maybe_label(par=True)]
                 rest = gen_blocks(rng, ls, rng.choice([0, 0, 1, 2]), depth + 1, ill, False)
+                if rng.random() < 0.2:          # \item[term], sometimes with the label inside the optional argument
+                    rest = [first] + rest
+                    first = ['iterm', ([['label', ls.fresh()]] if rng.random() < 0.4 else []) + [text(rng)]]
                 if ill and rest and rng.random() < 0.7:
                     rest.append(['par', [text(rng), ['label', ls.fresh()]]])
                 items.append([first] + rest)
@@ -385,7 +449,7 @@ def gen_blocks(rng, ls, n, depth, ill, top):
             out.append(['float', rng.choice(['fig', 'tab']), pre, cap, post])
         elif k == 'thm':
             title = ([text(rng)] + (maybe_label() if rng.random() < 0.4 else [])) if rng.random() < 0.4 else None
-            body = [['par', [text(rng)] + maybe_label()]] + gen_blocks(rng, ls, rng.choice([0, 1]), depth + 1, ill, False)
+            body = [['par', [text(rng)] + maybe_label(par=True)]] + gen_blocks(rng, ls, rng.choice([0, 1]), depth + 1, ill, False)
             if ill and len(body) > 1 and rng.random() < 0.7:
                 body.append(['par', [text(rng), ['label', ls.fresh()]]])
             out.append(['thm', title, body])
@@ -407,19 +471,28 @@ def place_refs(rng, ast, reqs):
                 slots.append(s[i][1])
 
 
-def gen_doc_case(rng, size, nvariants, ill=False, dup=False, flavour='doc'):
-    ls = LabelSource(rng, dup)
+def gen_doc_case(rng, size, nvariants, ill=False, dup=False, flavour='doc', special=False):
+    ls = LabelSource(rng, dup, special)
     ast = [['par', [text(rng)] + ([['label', ls.fresh()]] if rng.random() < 0.1 else [])]]
     ast += gen_blocks(rng, ls, size, 0, ill, True)
-    ast.append(['par', [text(rng)]])
     labels = list(dict.fromkeys(ls.used))
+    last = [text(rng)]
+    if rng.random() < 0.25:
+        # a bibliography whose keys are also names used by references (dangling ones, or labels): \bibitem keys are no labels
+        entries = []
+        for key in rng.sample(DANGLING + labels[:3] + ['knuth84'], rng.randint(1, 3)):
+            entries.append([key, [text(rng)]])      # no label on a bibliography entry: it stores its id in its cite key (outside the statement)
+            if rng.random() < 0.5:
+                last.append(['cmd', '\\cite{%s}' % key])
+        ast.append(['bib', entries])
+    ast.append(['par', last])
     nref = rng.randint(1, max(2, size + 2))
     reqs = []
     for uid in range(nref):
         if labels and rng.random() < 0.85:
             l = rng.choice(labels)
         else:
-            l = rng.choice(['nope', 'missing:1', 'zz'])
+            l = rng.choice(['no~pe', 'miss{}ing', 'z\\_z'] if special else DANGLING)
         reqs.append((rng.choice(['ref', 'ref', 'ref', 'pageref']), l, uid))
     docs = []
     for _ in range(1 + nvariants):
@@ -441,6 +514,18 @@ def small_docs(two_refs):
             return [['sec', 4, False, [['t', 'T']] + slot, l]]
         if kind == 'sect':
             return [['sec', 2, False, [['t', 'T'], ['label', l]] + slot, None]]
+        if kind == 'secv':      # a starred counterless command between the sectioning command and its label
+            return [['sec', 1, False, [['t', 'T']] + slot, l, [['cmd', '\\vspace*{1cm}']]]]
+        if kind == 'secb':
+            return [['sec', 2, False, [['t', 'T']] + slot, l, [['cmd', '\\hspace*{1em}'], ['cmd', '\\vspace{1cm}']]]]
+        if kind == 'sec2':      # two labels on one object
+            return [['sec', 1, False, [['t', 'T'], ['label', l]] + slot, l + '2']]
+        if kind == 'itemt':     # the label inside the optional argument of \item
+            return [['enum', [[['par', [['t', 'A']]]], [['iterm', [['label', l], ['t', '(b)']]], ['par', [['t', 'B']] + slot]]]]]
+        if kind == 'itemb':
+            return [['enum', [[['par', [['t', 'A']]]], [['par', [['t', 'B'], ['cmd', '\\\\*'], ['t', 'C'], ['label', l]] + slot]]]]]
+        if kind == 'thmt':      # the label inside the optional argument of a theorem
+            return [['thm', [['t', 'N'], ['label', l]], [['par', [['t', 'B']] + slot]]]]
         if kind == 'eq':
             return [['eq', [['t', 'x'], ['label', l]] + slot]]
         if kind == 'eqn':
@@ -454,7 +539,7 @@ def small_docs(two_refs):
         if kind == 'thm':
             return [['thm', None, [['par', [['t', 'B'], ['label', l]] + slot]]]]
         raise ValueError(kind)
-    kinds = ['sec', 'sect', 'sub3', 'para', 'eq', 'eqn', 'item', 'fig', 'tab', 'thm']
+    kinds = ['sec', 'sect', 'secv', 'secb', 'sec2', 'sub3', 'para', 'eq', 'eqn', 'item', 'itemt', 'itemb', 'fig', 'tab', 'thm', 'thmt']
     nslots = 5
     choices = list(itertools.product(range(3), range(nslots)))
     combos = [(c,) for c in choices]
@@ -473,8 +558,10 @@ def small_docs(two_refs):
                 slots = [[] for _ in range(nslots)]
                 for uid, (l, s) in enumerate(combo):
                     slots[s].append(['ref' if uid == 0 else 'pageref', names[l], uid])
+                # every third pair: a bibliography whose keys are the missing name and the first label (keys are no labels)
+                bib = [['bib', [[lz, [['t', 'Knuth']]], [la, [['t', 'Lamport']]]]]] if n % 3 == 0 else []
                 ast = [['par', [['t', 's']] + slots[0]]] + obj(k1, la, slots[1]) + [['par', [['t', 'm']] + slots[2]]] + \
-                    obj(k2, lb, slots[3]) + [['par', [['t', 'e']] + slots[4]]]
+                    obj(k2, lb, slots[3]) + bib + [['par', [['t', 'e']] + slots[4]]]
                 yield dict(kind='doc', flavour='small', docs=[ast], depth=depths[n % 5])
 
 
@@ -569,6 +656,8 @@ def streams(rng, tier, boost):
         out.append(('doc-duplicate-labels', gen_doc_case(rng, rng.choice([3, 5, 8]), 1, dup=True, flavour='dup')))
     for i in range((120 if quick else 2000) * boost):
         out.append(('doc-after-nested', gen_doc_case(rng, rng.choice([2, 3, 5]), 1, ill=True, flavour='ill')))
+    for i in range((100 if quick else 1000) * boost):
+        out.append(('doc-special-label-chars', gen_doc_case(rng, rng.choice([2, 3, 5]), 1, flavour='special', special=True)))
     # a few cases of every stream first, so that the vm_compute cross-check of the extraction (first 300 cases) sees all of them
     seen = {}
     front, rest = [], []
@@ -688,7 +777,7 @@ def run_api(ops):
     return observe(ctx, objs, list(enumerate(holds)))
 
 
-OBJ_NAMES = ('section', 'subsection', 'subsubsection', 'paragraph', 'subparagraph', 'equation', 'item', 'caption', 'thmenv', 'eqnarray')
+OBJ_NAMES = ('section', 'subsection', 'subsubsection', 'paragraph', 'subparagraph', 'equation', 'item', 'caption', 'thmenv', 'eqnarray', 'bibitem')
 
 
 def run_doc(ast, secnumdepth=None):
@@ -913,7 +1002,11 @@ def judge(case, io, mo):
         impl_probs = [t for c, t in probs if c == 'impl']
         model_probs = [t for c, t in probs if c == 'model-too']
         if impl_probs:
-            verdicts.append(dict(violation=True, key='C09:wrong-resolution', expected=m[6][3],
+            # a narrower key for one precise class: the label text reached Context.label / Context.ref as the repr of a Python
+            # object ('<plasTeX.TeXFragment object at 0x...>', different for every occurrence) instead of a string
+            reprs = any('TeXFragment object at 0x' in unS(l) for l, _ in list(ob[1]) + list(ob[2])) or \
+                any('TeXFragment object at 0x' in unS(i) for _, i in ob[3])
+            verdicts.append(dict(violation=True, key='C09:label-text-is-object-repr' if reprs else 'C09:wrong-resolution', expected=m[6][3],
                                  what='variant %d: %s' % (i, '; '.join(impl_probs[:3]))))
         elif ob != ms:
             diff = [n for n, a, b in zip(['idref tables', 'Context.labels', 'Context.refs (pending)', 'ids', 'numbers', 'currentlabel'], ob, ms) if a != b]
